@@ -132,6 +132,8 @@ def check_continuity(case):
         return [("exception", "Moon position at JDE %r / %r raised %r" % (lo, hi, ex), None)]
     out = []
     for nm, x, y in zip(VIEW_NAMES, a, b):
+        if "limb" in nm and (hi - lo > 1e-8 or not (0.01 < a[12] < 0.99)):
+            continue        # the bright limb turns by 180 degrees within minutes at new and full Moon
         d = abs(x - y)
         if "longitude" in nm or "ascension" in nm or "angle" in nm:
             d = abs(wrap180(x - y))
@@ -180,6 +182,110 @@ def run_latitude_zeros(spec, ctx):
     ctx.outcome(found)
     ctx.obs(spec, found)
     ctx.sample({"lo": spec[0], "hi": math.nextafter(spec[0], math.inf), "what": "sample"})
+
+
+# -- the arguments of the large periodic terms: zeros of their sines / cosines, and instants at which two of them are
+# -- equal or opposite ---------------------------------------------------------------------------------------------
+
+BIG_ROWS = [(0, 0, 1, 0), (2, 0, -1, 0), (2, 0, 0, 0), (0, 0, 2, 0), (0, 1, 0, 0), (0, 0, 0, 2), (2, 0, -2, 0),
+            (2, -1, -1, 0), (2, 0, 1, 0), (2, -1, 0, 0), (0, 1, -1, 0), (1, 0, 0, 0)]
+
+
+def mean_args(j):
+    """D, M, M', F in degrees (Meeus 47.2 - 47.5), the harness's own evaluation."""
+    T = (j - J2000) / 36525.0
+    D = 297.8501921 + T * (445267.1114034 + T * (-0.0018819 + T * (1.0 / 545868.0 - T / 113065000.0)))
+    M = 357.5291092 + T * (35999.0502909 + T * (-0.0001536 + T / 24490000.0))
+    Mp = 134.9633964 + T * (477198.8675055 + T * (0.0087414 + T * (1.0 / 69699.0 - T / 14712000.0)))
+    F = 93.2720950 + T * (483202.0175233 + T * (-0.0036539 + T * (-1.0 / 3526000.0 + T / 863310000.0)))
+    return D, M, Mp, F
+
+
+def _row_arg(row, a):
+    return row[0] * a[0] + row[1] * a[1] + row[2] * a[2] + row[3] * a[3]
+
+
+def argument_functions():
+    """(label, function of JDE whose zeros are wanted, in degrees wrapped to (-90, 90] or (-180, 180])."""
+    out = []
+    for r in BIG_ROWS:
+        out.append(("sin or cos of the argument %r is zero" % (r,),
+                    lambda j, r=r: wrap180(2.0 * _row_arg(r, mean_args(j))) / 2.0))
+    for i, r1 in enumerate(BIG_ROWS):
+        for r2 in BIG_ROWS[i + 1:]:
+            for sg in (1.0, -1.0):
+                out.append(("arguments %r and %s%r coincide" % (r1, "-" if sg < 0 else "", r2),
+                            lambda j, r1=r1, r2=r2, sg=sg: wrap180(_row_arg(r1, mean_args(j)) - sg * _row_arg(r2, mean_args(j)))))
+    return out
+
+
+def run_argument_events(spec, ctx):
+    """spec = (index of the argument function, start JDE, span in days).  Zeros are located with the harness's own
+    mean arguments (to adjacent doubles); all 14 views of the Moon's position must then be continuous across each
+    of the 7 pairs of adjacent doubles around the zero and towards 1e-6 day on either side.  (A term skipped where
+    its cosine vanishes, a sine taken from a memo keyed by |argument| or by the argument in a dict, shows as a jump
+    on single doubles there.)"""
+    k, j0, span = spec
+    label, f = argument_functions()[k]
+    t, prev = j0, f(j0)
+    found = 0
+    while t < j0 + span:
+        t2 = t + 0.25
+        cur = f(t2)
+        ctx.evals += 1
+        if (prev > 0.0) != (cur > 0.0) and abs(prev - cur) < 60.0:
+            lo, hi, slo = t, t2, prev > 0.0
+            while True:
+                mid = lo + (hi - lo) / 2.0
+                if mid <= lo or mid >= hi:
+                    break
+                if (f(mid) > 0.0) == slo:
+                    lo = mid
+                else:
+                    hi = mid
+            found += 1
+            pts = [lo]
+            for _ in range(3):
+                pts.insert(0, math.nextafter(pts[0], -math.inf))
+            pts.append(hi)
+            for _ in range(3):
+                pts.append(math.nextafter(pts[-1], math.inf))
+            cases = [{"lo": a, "hi": b, "what": label} for a, b in zip(pts, pts[1:])]
+            cases += [{"lo": pts[0] - 1e-6, "hi": pts[0], "what": label}, {"lo": pts[-1], "hi": pts[-1] + 1e-6, "what": label}]
+            for c in cases:
+                ctx.evals += 2
+                ctx.nt_count += 1
+                for site, msg, dev in check_continuity(c):
+                    ctx.viol(c, msg, dev=dev, site="argument_event_" + site)
+        t, prev = t2, cur
+    ctx.count("argument_events", found)
+    ctx.outcome((k, found > 0))
+    ctx.obs(spec, found)
+    ctx.sample({"lo": j0, "hi": math.nextafter(j0, math.inf), "what": label})
+
+
+def argument_event_specs(tier):
+    n = len(argument_functions())
+    span = 400.0 if tier == "thorough" else 60.0
+    starts = [2455000.0, y2jde(-1990), y2jde(3900)] + ([y2jde(1000), y2jde(2050)] if tier == "thorough" else [])
+    # the six arguments of the phase-angle formula of the illuminated fraction: their coincidences over two years
+    phase = {(0, 0, 1, 0), (0, 1, 0, 0), (2, 0, -1, 0), (2, 0, 0, 0), (0, 0, 2, 0), (1, 0, 0, 0)}
+    long_k = set()
+    k = len(BIG_ROWS)
+    for i, r1 in enumerate(BIG_ROWS):
+        for r2 in BIG_ROWS[i + 1:]:
+            for sg in (1.0, -1.0):
+                if r1 in phase and r2 in phase and sg > 0:
+                    long_k.add(k)
+                k += 1
+    out = []
+    for k in range(n):
+        for j0 in starts:
+            if k in long_k and span < 200.0:
+                out += [(k, j0 + q * 182.5, 182.5) for q in range(4)]
+            else:
+                out.append((k, j0, span))
+    return out
 
 
 # -- finders --------------------------------------------------------------------------------------
@@ -574,6 +680,8 @@ def clauses(tier):
                                             else (-1990, 2000, 3990)) for k in range(6)],
                run_latitude_zeros, lambda c: [m for _, m, _ in (check_continuity(c) if "lo" in c
                                                                else check_position(c["jde"]))], floor=100),
+        Clause("argument_events", argument_event_specs(tier), run_argument_events,
+               lambda c: [m for _, m, _ in check_continuity(c)], floor=1000),
         Clause("every_event", every, run_every_event, replay_sweep, floor=100000),
         Clause("year_ends", chunks(ye, 64), run_year_ends, lambda c: [m for _, m, _ in check_year_end(c)],
                floor=10000),
